@@ -108,13 +108,17 @@ def wantsCCS : Phase → Bool
 /-- the client's phase after ServerHelloDone (full handshake) or after ServerHello (resumption) -/
 def afterHelloDone (c : Cfg) : Phase := if c.ticket then .cTicket else .cCCS
 
+/-- the server expects CertificateVerify: `len(c.peerCertificates) > 0`, set only when a certificate was requested
+    and the client's Certificate message was not empty -/
+def wantsVerify (c : Cfg) : Bool := c.reqCert && c.peerCert
+
 /-- Type assertions of the handshake code: `none` = not what this phase accepts, `some none` = accepted and
     the handshake is complete, `some (some p)` = accepted, `p` is read next.  `ccs` is listed here too. -/
 def next (c : Cfg) : Phase → Msg → Option (Option Phase)
   | .sHello, .clientHello =>
       some (some (if c.resume then .sCCS else if c.reqCert then .sCert else .sKeyExchange))
   | .sCert, .certificate => some (some .sKeyExchange)
-  | .sKeyExchange, .clientKeyExchange => some (some (if c.reqCert && c.peerCert then .sCertVerify else .sCCS))
+  | .sKeyExchange, .clientKeyExchange => some (some (if wantsVerify c then .sCertVerify else .sCCS))
   | .sCertVerify, .certificateVerify => some (some .sCCS)
   | .sCCS, .ccs => some (some (if c.npn then .sNextProto else .sFinished))
   | .sNextProto, .nextProtocol => some (some .sFinished)
@@ -232,7 +236,7 @@ def sNextProtoL : List (List Msg) := pre .nextProtocol sFinishedL
 def sCCSL (c : Cfg) : List (List Msg) := pre .ccs (if c.npn then sNextProtoL else sFinishedL)
 def sCertVerifyL (c : Cfg) : List (List Msg) := pre .certificateVerify (sCCSL c)
 def sKeyExchangeL (c : Cfg) : List (List Msg) :=
-  pre .clientKeyExchange (if c.reqCert && c.peerCert then sCertVerifyL c else sCCSL c)
+  pre .clientKeyExchange (if wantsVerify c then sCertVerifyL c else sCCSL c)
 def sCertL (c : Cfg) : List (List Msg) := pre .certificate (sKeyExchangeL c)
 def sHelloL (c : Cfg) : List (List Msg) :=
   pre .clientHello (if c.resume then sCCSL c else if c.reqCert then sCertL c else sKeyExchangeL c)
@@ -353,20 +357,21 @@ inductive Answer where
   | serverHello (vers suite : Nat)
 deriving DecidableEq, Repr
 
-/-- `readClientHello` / `processClientHello*`: version, compression, suite (client's order of preference),
-    fallback SCSV — the checks that precede the ServerHello -/
+/-- the checks that precede the ServerHello once the code path (`ok`: which suites it can serve) and the
+    connection version `w` are fixed: null compression offered, first suite in the client's order of preference
+    that the server supports, fallback SCSV -/
+def answerOn (ok : Nat → Bool) (w vers : Nat) (suites comps : List Nat) : Answer :=
+  if comps.contains 0 = false then .failure else
+  match suites.find? ok with
+  | none => .failure
+  | some s => if suites.contains fallbackSCSV && decide (vers < versionTLS12) then .fallback else .serverHello w s
+
+/-- `readClientHello` / `processClientHello*`: how a server answers a hello with the given client_version,
+    suite list and compression methods -/
 def helloAnswer (mode : Mode) (elliptic : Bool) (vers : Nat) (suites comps : List Nat) : Answer :=
   match dispatch mode vers with
   | .reject => .reject
-  | .gm w =>
-      if ¬ comps.contains 0 then .failure else
-      match suites.find? (gmSuites.contains ·) with
-      | none => .failure
-      | some s => if suites.contains fallbackSCSV ∧ vers < versionTLS12 then .fallback else .serverHello w s
-  | .tls w =>
-      if ¬ comps.contains 0 then .failure else
-      match suites.find? (tlsSuiteOk w elliptic) with
-      | none => .failure
-      | some s => if suites.contains fallbackSCSV ∧ vers < versionTLS12 then .fallback else .serverHello w s
+  | .gm w => answerOn (gmSuites.contains ·) w vers suites comps
+  | .tls w => answerOn (tlsSuiteOk w elliptic) w vers suites comps
 
 end Model.Handshake
